@@ -1,6 +1,671 @@
-//! C37 — not implemented yet.
-use mc_core::Ctx;
+//! C37 — resource assertions accept exactly the balances they describe (pure-logic half).
+//!
+//! Bounded-exhaustive enumeration of constraints x balances through the real
+//! `ManifestResourceConstraint::validate_fungible / validate_non_fungible`,
+//! `GeneralResourceConstraint::{is_valid_for_*_use, normalize}` and
+//! `ManifestResourceConstraints::validate` (`validate_only` / `validate_includes`).
+//!
+//! Constraints: NonZeroAmount; ExactAmount / AtLeastAmount over {0, 1 atto, 1, 1.5, 2, -1};
+//! ExactNonFungibles / AtLeastNonFungibles over all subsets of {a,b}; General = lower in {NonZero, >=0,
+//! >=1 atto, >=1, >=1.5, >=2, >=-1} x upper in {<=0, <=1 atto, <=1, <=1.5, <=2, <=3, <=-1, unbounded} x
+//! required subset of {a,b} x allowed in {Any} + all allow-lists subset of {a,b,c}  (7*8*4*9 = 2016).
+//! Balances: fungible amounts {0, 1 atto, 1 - 1 atto, 1, 1.5, 2, 3, 3 + 1 atto}; id sets = all 16 subsets
+//! of {a,b,c,d}. The universe exceeds every constant of the alphabet by one step, so every satisfiable
+//! constraint of the alphabet has a witness in it.
+//!
+//! Reference = the mathematical reading, on plain integers (attos as i128, id sets as bit masks):
+//!   amount within the bounds  AND  required ids all present  AND  every id present is allowed,
+//! where a non-fungible balance has amount = number of ids and a fungible balance has no ids.
+//!
+//! Checked, for every constraint the code itself declares valid for the use:
+//!   validate(balance) is Ok  <=>  reference, for every balance of the universe;
+//!   some balance of the universe satisfies it (declared valid => satisfiable);
+//!   General: after `normalize()` exactly the same balances are accepted, and the normalised constraint is
+//!   again validated according to *its* meaning;
+//! and for `ManifestResourceConstraints::validate`: all ordered pairs of single-resource cases over two
+//! resources (fungible/non-fungible in all four combinations), with and without a balance of a third,
+//! unspecified resource, in both modes (only / includes).
+//! Constraints the code declares invalid carry no obligation (counted; informational when satisfiable).
+use crate::c27::Collector;
+use mc_core::{par_for, Ctx, Level, Local};
+use radix_common::prelude::*;
+use serde_json::{json, Map, Value};
 
-pub fn run(_ctx: Ctx) -> ! {
-    mc_core::machinery_error("C37: not implemented")
+const ONE: i128 = 1_000_000_000_000_000_000;
+
+// ------------------------------------------------------------------------------------------------
+// abstract (reference-side) constraints
+// ------------------------------------------------------------------------------------------------
+
+#[derive(Clone, Copy, Debug, PartialEq, Eq)]
+enum Lo {
+    NonZero,
+    Incl(i128),
+}
+
+#[derive(Clone, Copy, Debug, PartialEq, Eq)]
+enum Up {
+    Incl(i128),
+    Unbounded,
+}
+
+/// id sets are bit masks over {a=1, b=2, c=4, d=8}
+#[derive(Clone, Copy, Debug, PartialEq, Eq)]
+enum RC {
+    NonZero,
+    Exact(i128),
+    AtLeast(i128),
+    ExactIds(u8),
+    AtLeastIds(u8),
+    General { lo: Lo, up: Up, req: u8, allow: Option<u8> },
+}
+
+impl RC {
+    fn kind(&self) -> &'static str {
+        match self {
+            RC::NonZero => "NonZeroAmount",
+            RC::Exact(_) => "ExactAmount",
+            RC::AtLeast(_) => "AtLeastAmount",
+            RC::ExactIds(_) => "ExactNonFungibles",
+            RC::AtLeastIds(_) => "AtLeastNonFungibles",
+            RC::General { .. } => "General",
+        }
+    }
+    fn show(&self) -> String {
+        match self {
+            RC::NonZero => "NonZeroAmount".into(),
+            RC::Exact(a) => format!("ExactAmount({})", amt(*a)),
+            RC::AtLeast(a) => format!("AtLeastAmount({})", amt(*a)),
+            RC::ExactIds(m) => format!("ExactNonFungibles({})", ids_text(*m)),
+            RC::AtLeastIds(m) => format!("AtLeastNonFungibles({})", ids_text(*m)),
+            RC::General { lo, up, req, allow } => format!(
+                "General(lower={}, upper={}, required={}, allowed={})",
+                match lo {
+                    Lo::NonZero => "NonZero".to_string(),
+                    Lo::Incl(a) => format!(">={}", amt(*a)),
+                },
+                match up {
+                    Up::Unbounded => "Unbounded".to_string(),
+                    Up::Incl(a) => format!("<={}", amt(*a)),
+                },
+                ids_text(*req),
+                match allow {
+                    None => "Any".to_string(),
+                    Some(m) => ids_text(*m),
+                }
+            ),
+        }
+    }
+}
+
+fn amt(a: i128) -> String {
+    // exact decimal text of an atto amount (harness-side, for messages only)
+    let s = if a < 0 { "-" } else { "" };
+    let u = a.unsigned_abs();
+    let (q, r) = (u / ONE as u128, u % ONE as u128);
+    if r == 0 {
+        format!("{s}{q}")
+    } else {
+        format!("{s}{q}.{}", format!("{r:018}").trim_end_matches('0'))
+    }
+}
+
+fn ids_text(m: u8) -> String {
+    let mut v = vec![];
+    for (i, n) in ["a", "b", "c", "d"].iter().enumerate() {
+        if m & (1 << i) != 0 {
+            v.push(*n);
+        }
+    }
+    format!("{{{}}}", v.join(","))
+}
+
+fn lo_ok(lo: Lo, x: i128) -> bool {
+    match lo {
+        Lo::NonZero => x != 0, // balances are never negative; "non-zero" is what the name says
+        Lo::Incl(a) => x >= a,
+    }
+}
+
+fn up_ok(up: Up, x: i128) -> bool {
+    match up {
+        Up::Unbounded => true,
+        Up::Incl(a) => x <= a,
+    }
+}
+
+/// meaning on a fungible balance of `x` attos (no ids). None: an id-set constraint says nothing about a
+/// fungible balance (the code declares those invalid for fungible use).
+fn ref_fungible(c: &RC, x: i128) -> Option<bool> {
+    Some(match c {
+        RC::NonZero => x != 0,
+        RC::Exact(a) => x == *a,
+        RC::AtLeast(a) => x >= *a,
+        RC::ExactIds(_) | RC::AtLeastIds(_) => return None,
+        // required ids must be present: impossible unless none are required; allowed ids: no ids present
+        RC::General { lo, up, req, allow: _ } => lo_ok(*lo, x) && up_ok(*up, x) && *req == 0,
+    })
+}
+
+/// meaning on a non-fungible balance holding exactly the ids of `s`
+fn ref_non_fungible(c: &RC, s: u8) -> bool {
+    let n = s.count_ones() as i128 * ONE;
+    match c {
+        RC::NonZero => s != 0,
+        RC::Exact(a) => n == *a,
+        RC::AtLeast(a) => n >= *a,
+        RC::ExactIds(e) => s == *e,
+        RC::AtLeastIds(e) => e & !s == 0,
+        RC::General { lo, up, req, allow } => lo_ok(*lo, n) && up_ok(*up, n) && req & !s == 0 && allow.map(|a| s & !a == 0).unwrap_or(true),
+    }
+}
+
+// ------------------------------------------------------------------------------------------------
+// building the real objects / reading them back
+// ------------------------------------------------------------------------------------------------
+
+fn dec(attos: i128) -> Decimal {
+    let ext = if attos < 0 { u64::MAX } else { 0 };
+    Decimal::from_attos(I192::from_digits([attos as u64, (attos >> 64) as u64, ext]))
+}
+
+fn undec(d: &Decimal) -> i128 {
+    let l = d.attos().to_digits();
+    let v = ((l[1] as u128) << 64 | l[0] as u128) as i128;
+    let ext_ok = (v < 0 && l[2] == u64::MAX) || (v >= 0 && l[2] == 0);
+    if !ext_ok {
+        mc_core::machinery_error("C37: a normalised bound does not fit the harness' i128 (unexpected for this alphabet)");
+    }
+    v
+}
+
+fn id(i: usize) -> NonFungibleLocalId {
+    NonFungibleLocalId::integer(i as u64 + 1)
+}
+
+fn idset(m: u8) -> IndexSet<NonFungibleLocalId> {
+    (0..8).filter(|i| m & (1 << i) != 0).map(id).collect()
+}
+
+fn unidset(s: &IndexSet<NonFungibleLocalId>) -> u8 {
+    let mut m = 0u8;
+    for x in s {
+        let mut found = false;
+        for i in 0..8 {
+            if *x == id(i) {
+                m |= 1 << i;
+                found = true;
+            }
+        }
+        if !found {
+            mc_core::machinery_error("C37: unknown id in a normalised constraint");
+        }
+    }
+    m
+}
+
+fn real_general(lo: Lo, up: Up, req: u8, allow: Option<u8>) -> GeneralResourceConstraint {
+    GeneralResourceConstraint {
+        required_ids: idset(req),
+        lower_bound: match lo {
+            Lo::NonZero => LowerBound::NonZero,
+            Lo::Incl(a) => LowerBound::Inclusive(dec(a)),
+        },
+        upper_bound: match up {
+            Up::Unbounded => UpperBound::Unbounded,
+            Up::Incl(a) => UpperBound::Inclusive(dec(a)),
+        },
+        allowed_ids: match allow {
+            None => AllowedIds::Any,
+            Some(m) => AllowedIds::Allowlist(idset(m)),
+        },
+    }
+}
+
+fn real(c: &RC) -> ManifestResourceConstraint {
+    match c {
+        RC::NonZero => ManifestResourceConstraint::NonZeroAmount,
+        RC::Exact(a) => ManifestResourceConstraint::ExactAmount(dec(*a)),
+        RC::AtLeast(a) => ManifestResourceConstraint::AtLeastAmount(dec(*a)),
+        RC::ExactIds(m) => ManifestResourceConstraint::ExactNonFungibles(idset(*m)),
+        RC::AtLeastIds(m) => ManifestResourceConstraint::AtLeastNonFungibles(idset(*m)),
+        RC::General { lo, up, req, allow } => ManifestResourceConstraint::General(real_general(*lo, *up, *req, *allow)),
+    }
+}
+
+fn abstract_general(g: &GeneralResourceConstraint) -> RC {
+    RC::General {
+        lo: match &g.lower_bound {
+            LowerBound::NonZero => Lo::NonZero,
+            LowerBound::Inclusive(d) => Lo::Incl(undec(d)),
+        },
+        up: match &g.upper_bound {
+            UpperBound::Unbounded => Up::Unbounded,
+            UpperBound::Inclusive(d) => Up::Incl(undec(d)),
+        },
+        req: unidset(&g.required_ids),
+        allow: match &g.allowed_ids {
+            AllowedIds::Any => None,
+            AllowedIds::Allowlist(s) => Some(unidset(s)),
+        },
+    }
+}
+
+// ------------------------------------------------------------------------------------------------
+// alphabets
+// ------------------------------------------------------------------------------------------------
+
+struct Alphabet {
+    amounts: Vec<i128>,
+    simple_ids: u8, // simple id constraints over subsets of this mask
+    lowers: Vec<Lo>,
+    uppers: Vec<Up>,
+    req: u8,
+    allow: u8,
+    balances_f: Vec<i128>,
+    balances_n: u8, // all subsets of this mask
+}
+
+fn submasks(m: u8) -> Vec<u8> {
+    (0..=m).filter(|s| s & !m == 0).collect()
+}
+
+fn full_alphabet() -> Alphabet {
+    Alphabet {
+        amounts: vec![0, 1, ONE, ONE * 3 / 2, 2 * ONE, -ONE],
+        simple_ids: 0b0011,
+        lowers: vec![Lo::NonZero, Lo::Incl(0), Lo::Incl(1), Lo::Incl(ONE), Lo::Incl(ONE * 3 / 2), Lo::Incl(2 * ONE), Lo::Incl(-ONE)],
+        uppers: vec![Up::Incl(0), Up::Incl(1), Up::Incl(ONE), Up::Incl(ONE * 3 / 2), Up::Incl(2 * ONE), Up::Incl(3 * ONE), Up::Incl(-ONE), Up::Unbounded],
+        req: 0b0011,
+        allow: 0b0111,
+        balances_f: vec![0, 1, ONE - 1, ONE, ONE * 3 / 2, 2 * ONE, 3 * ONE, 3 * ONE + 1],
+        balances_n: 0b1111,
+    }
+}
+
+fn reduced_alphabet() -> Alphabet {
+    Alphabet {
+        amounts: vec![0, ONE, 2 * ONE],
+        simple_ids: 0b0011,
+        lowers: vec![Lo::NonZero, Lo::Incl(0), Lo::Incl(ONE)],
+        uppers: vec![Up::Incl(ONE), Up::Incl(2 * ONE), Up::Unbounded],
+        req: 0b0001,
+        allow: 0b0011,
+        balances_f: vec![0, 1, ONE, 2 * ONE],
+        balances_n: 0b0011,
+    }
+}
+
+fn constraints(a: &Alphabet) -> Vec<RC> {
+    let mut v = vec![RC::NonZero];
+    for x in &a.amounts {
+        v.push(RC::Exact(*x));
+        v.push(RC::AtLeast(*x));
+    }
+    for m in submasks(a.simple_ids) {
+        v.push(RC::ExactIds(m));
+        v.push(RC::AtLeastIds(m));
+    }
+    for lo in &a.lowers {
+        for up in &a.uppers {
+            for req in submasks(a.req) {
+                v.push(RC::General { lo: *lo, up: *up, req, allow: None });
+                for al in submasks(a.allow) {
+                    v.push(RC::General { lo: *lo, up: *up, req, allow: Some(al) });
+                }
+            }
+        }
+    }
+    v
+}
+
+// ------------------------------------------------------------------------------------------------
+// single-resource checks
+// ------------------------------------------------------------------------------------------------
+
+#[derive(Clone, Copy, PartialEq, Eq, Debug)]
+enum Use {
+    Fungible,
+    NonFungible,
+}
+
+impl Use {
+    fn name(&self) -> &'static str {
+        match self {
+            Use::Fungible => "fungible",
+            Use::NonFungible => "non-fungible",
+        }
+    }
+}
+
+#[derive(Clone, Copy, Debug)]
+enum Bal {
+    F(i128),
+    N(u8),
+}
+
+impl Bal {
+    fn show(&self) -> String {
+        match self {
+            Bal::F(x) => amt(*x),
+            Bal::N(s) => ids_text(*s),
+        }
+    }
+    fn json(&self) -> Value {
+        match self {
+            Bal::F(x) => json!({"fungible_attos": x.to_string()}),
+            Bal::N(s) => json!({"ids_mask": s}),
+        }
+    }
+}
+
+fn reference(c: &RC, b: &Bal) -> Option<bool> {
+    match b {
+        Bal::F(x) => ref_fungible(c, *x),
+        Bal::N(s) => Some(ref_non_fungible(c, *s)),
+    }
+}
+
+fn code_validate(rc: &ManifestResourceConstraint, b: &Bal) -> Result<bool, String> {
+    mc_core::catch(|| match b {
+        Bal::F(x) => rc.clone().validate_fungible(dec(*x)).is_ok(),
+        Bal::N(s) => rc.clone().validate_non_fungible(&idset(*s)).is_ok(),
+    })
+}
+
+fn declared_valid(rc: &ManifestResourceConstraint, u: Use) -> Result<bool, String> {
+    mc_core::catch(|| match u {
+        Use::Fungible => rc.is_valid_for_fungible_use(),
+        Use::NonFungible => rc.is_valid_for_non_fungible_use(),
+    })
+}
+
+fn universe(a: &Alphabet, u: Use) -> Vec<Bal> {
+    match u {
+        Use::Fungible => a.balances_f.iter().map(|x| Bal::F(*x)).collect(),
+        Use::NonFungible => submasks(a.balances_n).into_iter().map(Bal::N).collect(),
+    }
+}
+
+/// compare validate with the meaning of `meaning` over the universe; returns (#accepted, satisfiable)
+fn check_against_meaning(rc: &ManifestResourceConstraint, meaning: &RC, what: &str, u: Use, uni: &[Bal], l: &mut Local, col: &Collector) -> (u64, bool) {
+    let mut accepted = 0;
+    let mut sat = false;
+    for b in uni {
+        l.eval();
+        let exp = match reference(meaning, b) {
+            Some(e) => e,
+            None => mc_core::machinery_error("C37: an id-set constraint was declared valid for fungible use but has no fungible meaning"),
+        };
+        sat |= exp;
+        let case = || json!({"constraint": meaning.show(), "form": what, "use": u.name(), "balance": b.json()});
+        let lab = format!("{} @ {}", meaning.show(), b.show());
+        match code_validate(rc, b) {
+            Ok(got) if got == exp => {
+                if got {
+                    accepted += 1;
+                    l.class("validate:accepted-satisfying-balance");
+                } else {
+                    l.class("validate:rejected-unsatisfying-balance");
+                }
+            }
+            Ok(true) => col.add(format!("{}:{}:accepts-unsatisfying-balance{}", meaning.kind(), u.name(), what), &lab, || format!("{} ({} use) accepts balance {} which does not satisfy it", meaning.show(), u.name(), b.show()), case),
+            Ok(false) => col.add(format!("{}:{}:rejects-satisfying-balance{}", meaning.kind(), u.name(), what), &lab, || format!("{} ({} use) rejects balance {} which satisfies it", meaning.show(), u.name(), b.show()), case),
+            Err(p) => col.add(format!("{}:{}:validate-panics{}", meaning.kind(), u.name(), what), &lab, || format!("{} ({} use) on balance {} panicked: {p}", meaning.show(), u.name(), b.show()), case),
+        }
+    }
+    (accepted, sat)
+}
+
+fn check_single(c: &RC, a: &Alphabet, l: &mut Local, col: &Collector) {
+    let rc = real(c);
+    for u in [Use::Fungible, Use::NonFungible] {
+        l.eval();
+        let case = || json!({"constraint": c.show(), "use": u.name()});
+        let declared = match declared_valid(&rc, u) {
+            Ok(d) => d,
+            Err(p) => {
+                col.add(format!("{}:{}:is_valid-panics", c.kind(), u.name()), &c.show(), || format!("is_valid_for_{}_use of {} panicked: {p}", u.name(), c.show()), case);
+                continue;
+            }
+        };
+        let uni = universe(a, u);
+        if !declared {
+            l.class("declared-invalid");
+            // no obligation; remember when the code refuses something that has a perfectly good meaning
+            if uni.iter().any(|b| reference(c, b) == Some(true)) {
+                l.info(&format!("declared-invalid-but-satisfiable:{}:{}", c.kind(), u.name()));
+            }
+            continue;
+        }
+        l.class("declared-valid");
+        let (_, sat) = check_against_meaning(&rc, c, "", u, &uni, l, col);
+        if !sat {
+            col.add(format!("{}:{}:declared-valid-but-unsatisfiable", c.kind(), u.name()), &c.show(), || format!("{} is declared valid for {} use but no balance satisfies it", c.show(), u.name()), case);
+        }
+        // normalisation
+        if let ManifestResourceConstraint::General(g) = &rc {
+            let mut n = g.clone();
+            if let Err(p) = mc_core::catch(|| n.normalize()) {
+                col.add(format!("General:{}:normalize-panics", u.name()), &c.show(), || format!("normalize of {} panicked: {p}", c.show()), case);
+                continue;
+            }
+            let nc = abstract_general(&n);
+            let nrc = ManifestResourceConstraint::General(n.clone());
+            let mut changed = None;
+            for b in &uni {
+                l.eval();
+                let before = code_validate(&rc, b);
+                let after = code_validate(&nrc, b);
+                if before != after && changed.is_none() {
+                    changed = Some((*b, before, after));
+                }
+            }
+            match changed {
+                None => l.class(if nc == *c { "normalize:unchanged-constraint" } else { "normalize:rewritten-same-accepted-set" }),
+                Some((b, before, after)) => {
+                    let case = || json!({"constraint": c.show(), "use": u.name(), "normalized": nc.show(), "balance": b.json()});
+                    col.add(format!("General:{}:normalize-changes-accepted-set", u.name()), &c.show(), || format!("{} ({} use): balance {} accepted={:?} before normalize, accepted={:?} after (normalised to {})", c.show(), u.name(), b.show(), before, after, nc.show()), case);
+                }
+            }
+            // the normalised constraint, if the code still calls it valid, is validated by its own meaning too
+            match declared_valid(&nrc, u) {
+                Ok(true) => {
+                    check_against_meaning(&nrc, &nc, ":normalized-form", u, &uni, l, col);
+                }
+                _ => l.info(&format!("normalized-constraint-declared-invalid:{}", u.name())),
+            }
+            let mut n2 = n.clone();
+            if mc_core::catch(|| n2.normalize()).is_ok() && n2 != n {
+                l.info("normalize-not-idempotent");
+            }
+        }
+    }
+}
+
+// ------------------------------------------------------------------------------------------------
+// multi-resource checks
+// ------------------------------------------------------------------------------------------------
+
+fn address(fungible: bool, n: u8) -> ResourceAddress {
+    let mut raw = [n; NodeId::LENGTH];
+    raw[0] = if fungible { EntityType::GlobalFungibleResourceManager as u8 } else { EntityType::GlobalNonFungibleResourceManager as u8 };
+    ResourceAddress::new_or_panic(raw)
+}
+
+#[derive(Clone, Copy, Debug)]
+struct Case {
+    c: RC,
+    b: Bal,
+}
+
+impl Case {
+    fn fungible(&self) -> bool {
+        matches!(self.b, Bal::F(_))
+    }
+}
+
+/// single-resource cases whose constraint the code declares valid for the use of the balance
+fn cases(a: &Alphabet) -> Vec<Case> {
+    let mut v = vec![];
+    for c in constraints(a) {
+        let rc = real(&c);
+        for u in [Use::Fungible, Use::NonFungible] {
+            if declared_valid(&rc, u) == Ok(true) && (u == Use::NonFungible || ref_fungible(&c, 0).is_some()) {
+                for b in universe(a, u) {
+                    v.push(Case { c, b });
+                }
+            }
+        }
+    }
+    v
+}
+
+#[derive(Clone, Copy, Debug)]
+enum Extra {
+    None,
+    Fungible(i128),
+    NonFungible(u8),
+}
+
+const EXTRAS: [Extra; 3] = [Extra::None, Extra::Fungible(1), Extra::NonFungible(0b0001)];
+
+fn check_multi(specified: &[Case], l: &mut Local, col: &Collector) {
+    // distinct addresses per position; a third, unspecified resource of either kind
+    let addrs: Vec<ResourceAddress> = specified.iter().enumerate().map(|(i, c)| address(c.fungible(), 1 + i as u8)).collect();
+    for extra in EXTRAS {
+        for only in [true, false] {
+            l.eval();
+            let mut constraints = ManifestResourceConstraints::new();
+            let mut balances = AggregateResourceBalances::new();
+            let mut exp = true;
+            for (case, addr) in specified.iter().zip(addrs.iter()) {
+                constraints = constraints.with_unchecked(*addr, real(&case.c));
+                match case.b {
+                    Bal::F(x) => balances.add_fungible(*addr, dec(x)),
+                    Bal::N(s) => balances.add_non_fungible(*addr, idset(s)),
+                }
+                exp &= reference(&case.c, &case.b).unwrap_or(false);
+            }
+            match extra {
+                Extra::None => {}
+                Extra::Fungible(x) => {
+                    balances.add_fungible(address(true, 9), dec(x));
+                    exp &= !only;
+                }
+                Extra::NonFungible(s) => {
+                    balances.add_non_fungible(address(false, 9), idset(s));
+                    exp &= !only;
+                }
+            }
+            let got = mc_core::catch(move || if only { balances.validate_only(constraints).is_ok() } else { balances.validate_includes(constraints).is_ok() });
+            let mode = if only { "only" } else { "includes" };
+            let describe = || format!("[{}] + unspecified {:?}, mode {mode}", specified.iter().map(|c| format!("{} @ {}", c.c.show(), c.b.show())).collect::<Vec<_>>().join(" ; "), extra);
+            let case = || {
+                json!({"specified": specified.iter().map(|c| json!({"constraint": c.c.show(), "balance": c.b.json()})).collect::<Vec<_>>(),
+                       "unspecified": format!("{extra:?}"), "mode": mode})
+            };
+            match got {
+                Ok(g) if g == exp => l.class(if g { "multi:accepted" } else { "multi:rejected" }),
+                Ok(true) => col.add(format!("multi:{mode}:accepts-unsatisfying-balances"), &describe(), || format!("accepted although not satisfied: {}", describe()), case),
+                Ok(false) => col.add(format!("multi:{mode}:rejects-satisfying-balances"), &describe(), || format!("rejected although satisfied: {}", describe()), case),
+                Err(p) => col.add(format!("multi:{mode}:panics"), &describe(), || format!("panicked ({p}): {}", describe()), case),
+            }
+        }
+    }
+}
+
+// ------------------------------------------------------------------------------------------------
+
+pub fn run(ctx: Ctx) -> ! {
+    if ctx.replay.is_some() {
+        // cases are identified by their text; re-running the (cheap) quick enumeration reproduces them
+        println!("C37 replay: re-running the quick enumeration (the whole space takes seconds); the case was:");
+        println!("{}", serde_json::to_string_pretty(&ctx.read_replay_case().unwrap_or(Value::Null)).unwrap_or_default());
+    }
+    // reference self-test on hand-computed cases
+    {
+        let g = RC::General { lo: Lo::NonZero, up: Up::Incl(2 * ONE), req: 0b01, allow: Some(0b011) };
+        let ok = ref_non_fungible(&g, 0b01) && ref_non_fungible(&g, 0b11) && !ref_non_fungible(&g, 0b10) && !ref_non_fungible(&g, 0b101) && !ref_non_fungible(&g, 0)
+            && ref_fungible(&RC::General { lo: Lo::NonZero, up: Up::Unbounded, req: 0, allow: None }, 1) == Some(true)
+            && ref_fungible(&RC::General { lo: Lo::NonZero, up: Up::Unbounded, req: 0, allow: None }, 0) == Some(false)
+            && ref_fungible(&RC::Exact(ONE), ONE - 1) == Some(false)
+            && undec(&dec(-ONE)) == -ONE
+            && undec(&dec(3 * ONE + 1)) == 3 * ONE + 1
+            && unidset(&idset(0b1010)) == 0b1010
+            && address(true, 1).is_fungible()
+            && !address(false, 1).is_fungible();
+        if !ok {
+            mc_core::machinery_error("C37 reference self-test failed");
+        }
+    }
+    let col = Collector::default();
+    let full = full_alphabet();
+    let reduced = reduced_alphabet();
+
+    // single-resource: always the full alphabet (cheap)
+    let cs = constraints(&full);
+    par_for(&ctx, &cs, |c, l| check_single(c, &full, l, &col));
+    let mut l = Local::new();
+    for c in [&cs[3], &cs[cs.len() / 2], &cs[cs.len() - 7]] {
+        let rc = real(c);
+        l.sample(|| json!({"constraint": c.show(), "valid_for_fungible_use": rc.is_valid_for_fungible_use(), "valid_for_non_fungible_use": rc.is_valid_for_non_fungible_use(),
+            "accepted_id_sets": submasks(0b1111).into_iter().filter(|s| rc.clone().validate_non_fungible(&idset(*s)).is_ok()).map(ids_text).collect::<Vec<_>>()}));
+    }
+    ctx.merge(l);
+
+    // multi-resource
+    let red_cases = cases(&reduced);
+    let full_cases = cases(&full);
+    let mut l = Local::new();
+    check_multi(&[], &mut l, &col);
+    ctx.merge(l);
+    par_for(&ctx, &full_cases, |a, l| check_multi(&[*a], l, &col));
+    par_for(&ctx, &red_cases, |a, l| {
+        for b in &red_cases {
+            check_multi(&[*a, *b], l, &col);
+        }
+    });
+    let mut pairs = (red_cases.len() * red_cases.len()) as u64;
+    if !ctx.quick() {
+        par_for(&ctx, &full_cases, |a, l| {
+            for b in &red_cases {
+                check_multi(&[*a, *b], l, &col);
+                check_multi(&[*b, *a], l, &col);
+            }
+        });
+        pairs += 2 * (full_cases.len() * red_cases.len()) as u64;
+    }
+    col.flush(&ctx);
+
+    let classes = ctx.classes();
+    let c = |k: &str| classes.get(k).copied().unwrap_or(0);
+    // measured: (constraint, use) pairs the code declares valid + (constraint, balance) pairs accepted + accepted multi cases
+    let nontrivial = c("declared-valid") + c("validate:accepted-satisfying-balance") + c("multi:accepted");
+    let mut cov = Map::new();
+    cov.insert("constraints".into(), json!(cs.len()));
+    cov.insert("general_constraints".into(), json!(cs.iter().filter(|c| matches!(c, RC::General { .. })).count()));
+    cov.insert("fungible_balances".into(), json!(full.balances_f.len()));
+    cov.insert("id_set_balances".into(), json!(16));
+    cov.insert("single_resource_cases_full".into(), json!(full_cases.len()));
+    cov.insert("single_resource_cases_reduced".into(), json!(red_cases.len()));
+    cov.insert("multi_resource_ordered_pairs".into(), json!(pairs));
+    let rule = format!(
+        "{} constraints (NonZero; Exact/AtLeast x 6 amounts; Exact/AtLeast ids x 4 sets; 2016 general) x 2 uses x all balances of the universe (8 amounts / 16 id sets), + normalize on every valid general constraint; multi-resource: every valid single case alone and {} ordered pairs of single cases x 3 unspecified-resource options x 2 modes. A case is one (constraint, use, balance) or one (constraints, balances, mode); non-trivial = declared-valid (constraint,use) + accepted balances + accepted multi cases",
+        cs.len(),
+        pairs
+    );
+    ctx.finish(
+        Level::Exploration,
+        &rule,
+        nontrivial,
+        true,
+        cov,
+        &[
+            "a fungible balance has no ids: 'required ids present' holds only for an empty required set, 'ids allowed' holds vacuously",
+            "constraints the code declares invalid for a use carry no obligation",
+            "balances are non-negative (AggregateResourceBalances drops non-positive entries by construction)",
+            "worktop / ledger half of the property is checked elsewhere (mc-engine)",
+        ],
+    )
 }
